@@ -10,13 +10,13 @@ Theorem C02_iter_flat : forall P R openp load S icb r pg s,
 Proof. exact iiter_flat. Qed.
 Print Assumptions C02_iter_flat.
 
-Theorem C02_scan_rows : forall pg U npages S root (cb : record -> S -> flow * S) s,
-  index_scan pg U npages S root cb s = run_flat cb (index_rows pg U npages root) s.
+Theorem C02_scan_rows : forall pg op npages S root (cb : record -> S -> flow * S) s,
+  index_scan pg op npages S root cb s = run_flat cb (index_rows pg op npages root) s.
 Proof. exact index_scan_rows. Qed.
 Print Assumptions C02_scan_rows.
 
-Theorem C02_scan_all : forall pg U npages root l,
-  index_rows pg U npages root = (l, None) ->
-  index_scan pg U npages _ root (stop_after None) [] = (Continue, rev l).
+Theorem C02_scan_all : forall pg op npages root l,
+  index_rows pg op npages root = (l, None) ->
+  index_scan pg op npages _ root (stop_after None) [] = (Continue, rev l).
 Proof. exact index_scan_all. Qed.
 Print Assumptions C02_scan_all.
